@@ -54,7 +54,7 @@ def main() -> int:
             paths = list(v["paths"])
             if paths and r.random() < 0.7:
                 v["paths"].pop(r.choice(paths))
-            v["paths"][f"/extra{k}"] = {"get": {"operationId": f"extra_op_{k}", "tags": [r.choice(["pets", "fresh-tag", "default"])], "responses": {"200": {"description": "ok"}}}}
+            v["paths"][f"/extra{k}"] = {"get": {"operationId": f"extra_op_{k}", "tags": r.choice([["pets"], ["fresh-tag"], ["default"], ["fresh-tag", "pets"], ["default", "second-tag", "pets"]]), "responses": {"200": {"description": "ok"}}}}
             fam.append(v)
         # degenerate members: no operations at all / no schemas at all (whole sub-packages come and go)
         v = copy.deepcopy(base)
@@ -82,10 +82,13 @@ def main() -> int:
         for di, d in enumerate(fam):
             for meta in ("none", "poetry", "setup", "pdm"):
                 for doa in (False, True):
-                    j = run.job(d, want=["treehash"], meta=meta, cfg={"docstrings_on_attributes": True} if doa else {})
-                    j["name"] = "out"
-                    fkey[j["id"]] = (fi, di, meta, doa)
-                    fresh_jobs.append(j)
+                    for gat in (False, True):
+                        if gat and fi % 3 != 1:
+                            continue
+                        j = run.job(d, want=["treehash"], meta=meta, cfg=dict({"docstrings_on_attributes": True} if doa else {}, **({"generate_all_tags": True} if gat else {})))
+                        j["name"] = "out"
+                        fkey[j["id"]] = (fi, di, meta, doa, gat)
+                        fresh_jobs.append(j)
     fresh = {}
     for j, res in zip(fresh_jobs, run.map(fresh_jobs, timeout=300)):
         if not res.get("_error") and not res.get("exc") and res.get("accepted"):
@@ -108,6 +111,10 @@ def main() -> int:
             st["_doa"] = r.random() < 0.4
             if st["_doa"]:
                 st["cfg"] = dict(st.get("cfg") or {}, docstrings_on_attributes=True)
+            st["_gat"] = fi % 3 == 1 and r.random() < 0.5
+            if st["_gat"]:
+                # tag packages come and go with the option, too
+                st["cfg"] = dict(st.get("cfg") or {}, generate_all_tags=True)
             if not titled:
                 st["outdir_rel"] = "target/out"
             if si == 0 and not titled and h % 4 == 2:
@@ -207,7 +214,7 @@ def main() -> int:
                 continue
             if kind != "family":
                 continue
-            want = fresh.get((a, st["_di"], meta, bool(st.get("_doa"))))
+            want = fresh.get((a, st["_di"], meta, bool(st.get("_doa")), bool(st.get("_gat"))))
             if want is None or errored:
                 continue
             ev.count("convergence_checked")
